@@ -9,7 +9,8 @@
 set -u
 ROOT="$(cd "$(dirname "${BASH_SOURCE[0]}")" && pwd)"
 ORIG_PWD="$PWD"
-export VERIF_ROOT="$ROOT"
+# tools/try_patch.sh redirects evidence and replay files of mutant runs to a scratch directory
+export VERIF_ROOT="${VERIF_ROOT_OVERRIDE:-$ROOT}"
 export CARGO_NET_OFFLINE=true
 cd "$ROOT/sim" || exit 2
 
